@@ -1,14 +1,25 @@
 """C03 Transition counts: lag-shifted slice pairs, orientation, no
-cross-trajectory pairs, -1 masking, unit weights, inferred state count."""
+cross-trajectory pairs, -1 masking, unit weights, inferred state count.
+
+All constructs are located by ROLE (parameters by position, "what the helper
+returns", "what is handed to coo_matrix", "the variable iterated over by the
+loop that calls the helper") and followed through def-use chains; contents are
+compared after expansion of temporaries.  Verdicts are three-valued: a
+recognised construct with wrong content is a VIOLATION, an unrecognised shape
+is ANALYSIS-INCOMPLETE."""
 import ast
 
-from ..core import (AnalysisIncomplete, call_name, const_value, kwarg,
-                    names_loaded, params, target_names, u, walk_expr,
-                    walk_local)
-from ..patterns import (Cmp, assigns_to, calls_in, check_no_arg_mutation,
-                        conjuncts, finfo, returns_of)
+from ..cfg import Assume, stmt_defs
+from ..core import (arg_or_kw, call_name, const_value, kwarg, params, u,
+                    walk_expr)
+from ..match import canon, classify, match_any
+from ..normal import is_pure
+from ..patterns import (Cmp, calls_in, check_no_arg_mutation, conjuncts,
+                        finfo, returns_of)
 
 TM = 'enspara/msm/transition_matrices.py'
+HELPER = '_transitions_helper'
+COUNTS = 'assigns_to_counts'
 
 EXPLANATION = (
     'Static decision of the structural necessary conditions of exact '
@@ -27,208 +38,995 @@ EXPLANATION = (
     're-derived.')
 
 
-def _slice_of(e):
-    if isinstance(e, ast.Subscript) and isinstance(e.slice, ast.Slice):
-        return e.value, e.slice
-    return None, None
+# ---------------------------------------------------------------------------
+# generic helpers (candidates for promotion to sa/patterns.py / sa/cfg.py)
+
+def _rebound(fi, name):
+    """`name` (a parameter) is (re)bound somewhere in the function."""
+    for s in fi.cfg.nodes:
+        if isinstance(s, (str, Assume)):
+            continue
+        if name in stmt_defs(s):
+            return True
+    return False
+
+
+def _inside(mod, node, container):
+    p = mod.parent.get(node)
+    while p is not None:
+        if p is container:
+            return True
+        p = mod.parent.get(p)
+    return False
+
+
+def _flag_truth(test, polarity, flag):
+    """Truth value of the name `flag` implied by `test` evaluating to
+    `polarity` (None if the test does not decide it)."""
+    cs = conjuncts(test, polarity)
+    for c in cs or []:
+        if isinstance(c, tuple) and c[0] == 'expr' and isinstance(c[1], ast.Name) and c[1].id == flag:
+            return c[2]
+    return None
+
+
+def _assumes(fi, stmt):
+    """Branch conditions that hold whenever `stmt` executes (the Assume nodes
+    dominating it)."""
+    return [a for a in fi.cfg.dom.get(stmt, ()) if isinstance(a, Assume)]
+
+
+def _excluded(fi, site, flag, truth):
+    """`site` can only execute when the never-rebound parameter `flag` has
+    the other truth value."""
+    if isinstance(site, str):
+        return False
+    for a in _assumes(fi, site):
+        t = _flag_truth(a.test, a.polarity, flag)
+        if t is not None and t != truth:
+            return True
+    return False
+
+
+def _path_value(fi, name_node, flag, truth):
+    """Defining expression of a Name use on the executions where `flag` is
+    `truth`: the one reaching definition that is not confined to the other
+    branch (same safety conditions as FuncInfo.temp_value)."""
+    try:
+        defs = fi.defs_of_use(name_node)
+    except Exception:
+        return None
+    live = [s for s in defs if not _excluded(fi, s, flag, truth)]
+    if len(live) != 1 or isinstance(live[0], str) or not isinstance(live[0], (ast.Assign, ast.AnnAssign)):
+        return None
+    site = live[0]
+    v = fi.def_value(site, name_node.id)
+    if v is None or isinstance(v, ast.GeneratorExp) or not is_pure(v):
+        return None
+    if fi._mutated_in_place(name_node.id):
+        return None
+    use = fi.stmt(name_node)
+    for m in walk_expr(v):
+        if not (isinstance(m, ast.Name) and isinstance(m.ctx, ast.Load)):
+            continue
+        ds = {x for x in fi.rd.defs_at(site, m.id) if not _excluded(fi, x, flag, truth)}
+        du = {x for x in fi.rd.defs_at(use, m.id) if not _excluded(fi, x, flag, truth)}
+        if ds != du or fi._mutated_in_place(m.id):
+            return None
+    return v
+
+
+def _specialise(fi, expr, flag, truth, depth=8):
+    """fi.expand(expr) on the executions where the parameter `flag` (never
+    rebound) has truth value `truth`: temporaries are expanded, a name with
+    one definition per branch of `if flag` is replaced by the definition of
+    the live branch, `x if flag else y` by the live arm."""
+    def ex(e, d):
+        if isinstance(e, ast.Name):
+            if d > 0 and isinstance(e.ctx, ast.Load):
+                v = fi.temp_value(e)
+                if v is None:
+                    v = _path_value(fi, e, flag, truth)
+                if v is not None:
+                    return ex(v, d - 1)
+            return ast.Name(id=e.id, ctx=ast.Load())
+        if isinstance(e, ast.IfExp):
+            t = _flag_truth(e.test, True, flag)
+            if t is not None:
+                return ex(e.body if t == truth else e.orelse, d)
+        if not isinstance(e, ast.AST):
+            return e
+        if isinstance(e, (ast.expr_context, ast.operator, ast.unaryop, ast.boolop, ast.cmpop)):
+            return e
+        new = type(e)()
+        for f in e._fields:
+            val = getattr(e, f, None)
+            if isinstance(val, list):
+                setattr(new, f, [ex(x, d) for x in val])
+            elif isinstance(val, ast.AST):
+                setattr(new, f, ex(val, d))
+            else:
+                setattr(new, f, val)
+        return new
+    return ast.fix_missing_locations(ex(expr, depth))
+
+
+def _orig(fi, e, depth=8):
+    """Follow temporaries (fi.temp_value) but stay on nodes of the analysed
+    tree, so that def-use queries remain possible on the result."""
+    while isinstance(e, ast.Name) and depth > 0:
+        v = fi.temp_value(e)
+        if v is None:
+            break
+        e, depth = v, depth - 1
+    return e
+
+
+def _alts(fi, e, seen=None, depth=6):
+    """The expressions a value may come from: a Name is followed through ALL
+    its reaching definitions.  Returns [(site, expr-or-None)]; site is a
+    statement, 'PARAM' or 'UNBOUND'; expr None = a definition that is not a
+    plain assignment."""
+    seen = set() if seen is None else seen
+    if isinstance(e, ast.Name) and isinstance(e.ctx, ast.Load):
+        try:
+            defs = fi.defs_of_use(e)
+        except Exception:
+            return [(None, None)]
+        out = []
+        for s in sorted(defs, key=lambda s: (0, s) if isinstance(s, str) else (1, getattr(s, 'lineno', 0))):
+            if isinstance(s, str):
+                out.append((s, e))
+                continue
+            v = fi.def_value(s, e.id) if isinstance(s, (ast.Assign, ast.AnnAssign)) else None
+            if v is None:
+                out.append((s, None))
+            elif id(s) in seen or depth <= 0:
+                out.append((s, v))
+            else:
+                seen.add(id(s))
+                out += _alts(fi, v, seen, depth - 1)
+        return out
+    return [(fi.stmt(e), e)]
+
+
+def _lin(e, name):
+    """(c0, c1) with e == c0 + c1*name for integer literals, +, -, unary
+    minus and multiplication by a literal; None otherwise."""
+    if isinstance(e, ast.Constant):
+        if isinstance(e.value, int) and not isinstance(e.value, bool):
+            return (e.value, 0)
+        return None
+    if isinstance(e, ast.Name):
+        return (0, 1) if e.id == name else None
+    if isinstance(e, ast.UnaryOp) and isinstance(e.op, (ast.USub, ast.UAdd)):
+        v = _lin(e.operand, name)
+        if v is None:
+            return None
+        return (-v[0], -v[1]) if isinstance(e.op, ast.USub) else v
+    if isinstance(e, ast.BinOp):
+        a, b = _lin(e.left, name), _lin(e.right, name)
+        if a is None or b is None:
+            return None
+        if isinstance(e.op, ast.Add):
+            return (a[0] + b[0], a[1] + b[1])
+        if isinstance(e.op, ast.Sub):
+            return (a[0] - b[0], a[1] - b[1])
+        if isinstance(e.op, ast.Mult):
+            if a[1] == 0:
+                return (a[0] * b[0], a[0] * b[1])
+            if b[1] == 0:
+                return (a[0] * b[0], a[1] * b[0])
+    return None
+
+
+# ---------------------------------------------------------------------------
+# D1/D2: the helper
+
+_STACKS = ('np.row_stack', 'np.vstack', 'np.array', 'np.asarray', 'np.stack')
+
+
+def _slice_parts(e):
+    """(base, lower, upper, step) of `base[lower:upper:step]` /
+    `base[slice(...)]`, else None."""
+    if not isinstance(e, ast.Subscript):
+        return None
+    s = e.slice
+    if isinstance(s, ast.Slice):
+        return e.value, s.lower, s.upper, s.step
+    if isinstance(s, ast.Call) and call_name(s) == 'slice' and not s.keywords and 1 <= len(s.args) <= 3:
+        a = list(s.args)
+        if len(a) == 1:
+            return e.value, None, a[0], None
+        return e.value, a[0], a[1], (a[2] if len(a) == 3 else None)
+    return None
+
+
+def _component(e, lag, accepted):
+    """Verdict for one slice component against the accepted values ('none' or
+    linear forms in lag): 'ok' | 'bad' (a different, fully understood value) |
+    'far' (not understood / equal only as mathematical integers)."""
+    if e is None or (isinstance(e, ast.Constant) and e.value is None):
+        return 'ok' if 'none' in accepted else 'bad'
+    v = _lin(e, lag)
+    if v is None:
+        return 'far'
+    if v not in accepted:
+        return 'bad'
+    if v[1] != 0 and u(e) not in (lag, '-%s' % lag, '-(%s)' % lag):
+        # e.g. `-1 * lag` / `0 - lag`: equal for Python ints only
+        return 'far'
+    return 'ok'
+
+
+def _pair_verdict(a, b, arr, lag, strided):
+    """Verdict for (from, to) = (a, b) as an instance of the slice lemma."""
+    pa, pb = _slice_parts(a), _slice_parts(b)
+    if pa is None or pb is None:
+        return 'far', 'from/to states are not plain slices of the trajectory parameter'
+    out = []
+    for p in (pa, pb):
+        if isinstance(p[0], ast.Name):
+            out.append('ok' if p[0].id == arr else 'bad')
+        else:
+            out.append('far')
+    step = {(0, 1)} if strided else {'none', (1, 0)}
+    out.append(_component(pa[1], lag, {'none', (0, 0)}))
+    out.append(_component(pa[2], lag, {(0, -1)}))
+    out.append(_component(pa[3], lag, step))
+    out.append(_component(pb[1], lag, {(0, 1)}))
+    out.append(_component(pb[2], lag, {'none'}))
+    out.append(_component(pb[3], lag, step))
+    if 'bad' in out:
+        return 'bad', ''
+    if 'far' in out:
+        return 'far', 'sliced object is not the parameter itself, or a bound/step is not a literal, None or +-%s' % lag
+    return 'ok', ''
 
 
 def d1_slices(ck):
     rule = 'C03.D1.slices'
     mod = ck.repo.mod(TM)
-    fn = mod.func('_transitions_helper')
+    fn = mod.func(HELPER)
     ck.analysed(mod, fn)
     fi = finfo(mod, fn)
     ps = params(fn)
+    if len(ps) < 3:
+        ck.missing(rule, '%s(trajectory, lag, sliding flag): found parameters %s' % (HELPER, ps))
+        return
     arr, lag, sw = ps[0], ps[1], ps[2]
-    ifs = [n for n in fn.body if isinstance(n, ast.If)]
-    if len(ifs) != 1 or not ifs[0].orelse:
-        ck.bad(rule, mod, fn, '_transitions_helper', 'if %s: ... else: ...' % sw,
-               'the helper must have a sliding and a strided branch selected by `%s`; '
-               'found %d if-statements' % (sw, len(ifs)))
+    for p in (arr, lag, sw):
+        if _rebound(fi, p):
+            ck.missing(rule, 'parameter `%s` of %s is rebound: slices cannot be related to the arguments' % (p, HELPER))
+            return
+    rets = [r for r in returns_of(fn) if r.value is not None]
+    if not rets:
+        ck.missing(rule, '%s returns nothing' % HELPER)
         return
-    node = ifs[0]
-    pol = None
-    if u(node.test) == sw:
-        pol = True
-    elif u(node.test) in ('not %s' % sw,):
-        pol = False
-    if pol is None:
-        ck.bad(rule, mod, node, '_transitions_helper', u(node.test),
-               'branch must be selected by the sliding_window flag')
-        return
-    sliding, strided = (node.body, node.orelse) if pol else (node.orelse, node.body)
-    # returned stack: which names are row 0 / row 1
-    rets = returns_of(fn)
-    stack = None
-    for r in rets:
-        v = fi.resolve(r.value) if isinstance(r.value, ast.Name) else r.value
-        if isinstance(v, ast.Call) and call_name(v) in ('np.row_stack', 'np.vstack', 'np.array', 'np.stack'):
-            stack = v
-    if stack is None or not stack.args or not isinstance(stack.args[0], (ast.Tuple, ast.List)) \
-            or len(stack.args[0].elts) != 2:
-        ck.bad('C03.D2.orientation', mod, fn, '_transitions_helper', u(rets[0]) if rets else 'return',
-               'the helper must return the 2-row stack (from_states, to_states)')
-        return
-    r0, r1 = [u(e) for e in stack.args[0].elts]
-    for label, body, want_step in (('sliding', sliding, ('1', 'None')), ('strided', strided, (lag,))):
-        defs = {}
-        for s in body:
-            if isinstance(s, ast.Assign) and isinstance(s.targets[0], ast.Name):
-                defs[s.targets[0].id] = s
-        if r0 not in defs or r1 not in defs:
-            ck.bad(rule, mod, node, '_transitions_helper', '%s branch' % label,
-                   '%s branch does not define both `%s` and `%s`' % (label, r0, r1))
+    n = 0
+    for label, truth in (('sliding', True), ('strided', False)):
+        step = lag if not truth else '1'
+        live = [r for r in rets if not _excluded(fi, r, sw, truth)]
+        if not live:
+            ck.missing(rule, 'no return of %s reachable with %s=%s' % (HELPER, sw, truth))
             continue
-        b0, s0 = _slice_of(defs[r0].value)
-        b1, s1 = _slice_of(defs[r1].value)
-        if s0 is None or s1 is None:
-            ck.bad(rule, mod, defs[r0], '_transitions_helper', u(defs[r0]) + ' ; ' + u(defs[r1]),
-                   '%s branch: from/to states must be plain slices of the trajectory' % label)
-            continue
-        ok_arr = u(b0) == arr and u(b1) == arr
-        ok_from = s0.lower is None and u(s0.upper) == '-%s' % lag
-        ok_to = u(s1.lower) == lag and s1.upper is None
-        st0, st1 = u(s0.step), u(s1.step)
-        ok_step = st0 in want_step and st1 in want_step
-        ck.check(ok_arr and ok_from and ok_to and ok_step, rule, mod, defs[r0], '_transitions_helper',
-                 '%s: %s ; %s' % (label, u(defs[r0]), u(defs[r1])),
-                 'instance of the slice lemma with L=%s, s=%s' % (lag, want_step[0]),
-                 '%s branch must pair a[:-%s:%s] (from) with a[%s::%s] (to) on the same array `%s`: '
-                 'any other start/stop/step pairs frame t with a frame other than t+%s or gives '
-                 'slices of different length' % (label, lag, want_step[0], lag, want_step[0], arr, lag))
-    ck.ok('C03.D2.orientation', mod, stack, u(stack), 'row 0 = from-states (%s), row 1 = to-states (%s)' % (r0, r1))
-    # names: r0 is the [:-L] slice -> from state. Checked above through ok_from/ok_to.
+        for r in live:
+            n += 1
+            other = [a for a in _assumes(fi, r) if _flag_truth(a.test, a.polarity, sw) is None]
+            if other:
+                ck.missing(rule, 'return at %s depends on a condition the slice lemma does not cover: %s' % (
+                    mod.loc(r), u(other[0].test)[:80]))
+                continue
+            val = canon(_specialise(fi, r.value, sw, truth))
+            text = '%s: %s' % (label, u(val))
+            elts = None
+            if isinstance(val, ast.Call) and call_name(val) in _STACKS and len(val.args) == 1 and \
+                    isinstance(val.args[0], (ast.Tuple, ast.List)) and len(val.args[0].elts) == 2:
+                ax = kwarg(val, 'axis')
+                extra = [k for k in val.keywords if not (call_name(val) == 'np.stack' and k.arg == 'axis')]
+                if extra:
+                    ck.missing('C03.D2.orientation', 'stack call with options not recognised: %s' % text[:160])
+                    continue
+                if ax is not None and const_value(ax) != 0:
+                    ck.bad('C03.D2.orientation', mod, r, HELPER, text,
+                           'the helper must return the 2-row stack (from_states, to_states): stacking along '
+                           'another axis transposes the coordinate array')
+                    continue
+                elts = val.args[0].elts
+            if elts is None:
+                v = classify(val, ['np.row_stack((_A, _B))'], scope={arr, lag, sw})
+                ck.decide(v, 'C03.D2.orientation', mod, r, HELPER, text, '',
+                          'the helper must return the 2-row stack (from_states, to_states)')
+                continue
+            verdict, why = _pair_verdict(elts[0], elts[1], arr, lag, not truth)
+            witness = None
+            if verdict == 'bad' and _pair_verdict(elts[1], elts[0], arr, lag, not truth)[0] == 'ok':
+                ck.bad('C03.D2.orientation', mod, r, HELPER, text,
+                       'row 0 of the stack must be the from-states a[:-%s] and row 1 the to-states a[%s:]: '
+                       'swapped rows transpose the count matrix' % (lag, lag))
+                continue
+            if verdict == 'far':
+                ck.missing(rule, '%s branch not recognised as an instance of the slice lemma (%s): %s' % (
+                    label, why, text[:160]))
+                continue
+            ck.check(verdict == 'ok', rule, mod, r, HELPER, text,
+                     'instance of the slice lemma with L=%s, s=%s' % (lag, step),
+                     '%s branch must pair a[:-%s:%s] (from) with a[%s::%s] (to) on the same array `%s`: '
+                     'any other start/stop/step pairs frame t with a frame other than t+%s or gives '
+                     'slices of different length' % (label, lag, step, lag, step, arr, lag), witness=witness)
+            if verdict == 'ok':
+                ck.ok('C03.D2.orientation', mod, r, text, 'row 0 = from-states a[:-%s], row 1 = to-states a[%s:]' % (lag, lag))
+    return n
+
+
+# ---------------------------------------------------------------------------
+# assigns_to_counts
+
+_MASKS = ['_V[np.where(_V != -1)]', '_V[_V != -1]', '_V[np.where(_V != -1)[0]]',
+          '_V[np.nonzero(_V != -1)]', '_V[np.nonzero(_V != -1)[0]]',
+          '_V[np.where(-1 != _V)]', '_V[-1 != _V]', '_V[np.where(-1 != _V)[0]]',
+          '_V[~(_V == -1)]', '_V[np.where(~(_V == -1))]', '_V[np.not_equal(_V, -1)]']
+_JOINS = ('np.concatenate', 'np.hstack')
+_WIDE = ('int', 'np.int64', "'int'", "'int64'", 'np.int_', 'np.intp', "'i8'", 'float', 'np.float64',
+         "'float'", "'float64'", 'np.uint64', 'np.longlong')
+_NARROW = ('np.int8', 'np.int16', 'np.int32', 'np.uint8', 'np.uint16', 'np.uint32', 'bool', 'np.bool_',
+           "'int8'", "'int16'", "'int32'", "'uint8'", "'uint16'", "'uint32'", "'bool'", 'np.float16', 'np.float32')
+
+
+class _Counts:
+    def __init__(self, ck):
+        self.ck = ck
+        self.mod = mod = ck.repo.mod(TM)
+        self.fn = fn = mod.func(COUNTS)
+        ck.analysed(mod, fn)
+        self.fi = finfo(mod, fn)
+        self.ps = params(fn)
+        self.hps = params(mod.func(HELPER))
+
+    # -- D1 ---------------------------------------------------------------
+    def lag_guard(self, helper_calls):
+        ck, mod, fn, fi = self.ck, self.mod, self.fn, self.fi
+        rule = 'C03.D1.lag-guard'
+        lag = self.ps[1]
+        if _rebound(fi, lag):
+            ck.missing(rule, 'parameter `%s` is rebound in %s' % (lag, COUNTS))
+            return
+
+        def bound(a):
+            """(k, strict): the assumption implies k < lag resp. k <= lag."""
+            for c in conjuncts(a.test, a.polarity) or []:
+                if isinstance(c, Cmp):
+                    less = c.as_less()
+                    if less and isinstance(less[2], ast.Name) and less[2].id == lag:
+                        k = const_value(less[0])
+                        if isinstance(k, int) and not isinstance(k, bool):
+                            return k, less[1], a
+            return None
+        for hc in helper_calls:
+            hs = fi.stmt(hc)
+            bs = [b for b in (bound(a) for a in _assumes(fi, hs)) if b]
+            good = [b for b in bs if (b[1] and b[0] == 0) or (not b[1] and b[0] == 1)]
+            if good:
+                ck.ok(rule, mod, good[0][2].owner, 'not (%s)' % u(good[0][2].test) if not good[0][2].polarity else u(good[0][2].test),
+                      '%s < 1 raises/leaves on every path to the helper call at %s (a[:-0] would be empty)' % (lag, mod.loc(hc)))
+                continue
+            if bs:
+                ck.bad(rule, mod, bs[0][2].owner, COUNTS, '%s < 1' % lag,
+                       'the lag guard in front of the helper call is `%s` (assumed %s): exactly the lags < 1 must be '
+                       'rejected (L = 0 makes a[:-0] empty, negative lags pair the wrong frames, lag 1 is valid)' % (
+                           u(bs[0][2].test), bs[0][2].polarity))
+                continue
+            # a validator the rule cannot see through?
+            cands = []
+            for c in calls_in(fn):
+                cn = call_name(c) or ''
+                if c is hc or cn == HELPER or not cn or cn.split('.')[0] in ('np', 'numpy', 'numbers', 'logger', 'logging', 'exception', 'scipy') \
+                        or cn in ('isinstance', 'type', 'int', 'str', 'print', 'len', 'repr', 'float'):
+                    continue
+                cs = fi.stmt(c)
+                if any(isinstance(x, ast.Name) and x.id == lag for a in list(c.args) + [k.value for k in c.keywords] for x in walk_expr(a)) \
+                        and isinstance(cs, (ast.Expr, ast.Assign)) and fi.cfg.dominates(cs, hs):
+                    cands.append(c)
+            if cands:
+                ck.missing(rule, '`%s < 1` guard not found; %s is handed to %s, which the rule does not see through' % (
+                    lag, lag, call_name(cands[0])))
+                continue
+            ck.bad(rule, mod, fn, COUNTS, '%s < 1' % lag,
+                   'lag_time < 1 must raise before counting: with L = 0 the slice a[:-0] is empty and '
+                   'negative lags pair the wrong frames')
+
+    # -- rows ---------------------------------------------------------------
+    def binder(self, name_node, inside):
+        """(iterable, kind) that binds the Name `name_node` as a per-element
+        iteration variable enclosing `inside`."""
+        mod, fi = self.mod, self.fi
+        p = mod.parent.get(inside)
+        while p is not None and p is not self.fn:
+            if isinstance(p, (ast.ListComp, ast.GeneratorExp, ast.SetComp)):
+                for g in p.generators:
+                    if isinstance(g.target, ast.Name) and g.target.id == name_node.id:
+                        if g.ifs or len(p.generators) != 1 or isinstance(p, ast.SetComp):
+                            return None, 'filtered'
+                        return g.iter, 'comp'
+            p = mod.parent.get(p)
+        try:
+            defs = fi.defs_of_use(name_node)
+        except Exception:
+            return None, None
+        if len(defs) == 1:
+            s = next(iter(defs))
+            if isinstance(s, ast.For) and isinstance(s.target, ast.Name) and s.target.id == name_node.id \
+                    and any(_inside(mod, inside, b) or inside is b for b in s.body):
+                return s.iter, 'for'
+        return None, None
+
+    def is_raw(self, e):
+        """`e` is the caller's trajectory collection itself."""
+        e = _orig(self.fi, e)
+        if isinstance(e, ast.Name) and e.id == self.ps[0]:
+            try:
+                return self.fi.defs_of_use(e) == {'PARAM'}
+            except Exception:
+                return False
+        return False
+
+    def masked_form(self, v):
+        """'masked' | ('near', verdict) | 'far' for an expression that should be the list
+        of per-row -1-filtered trajectories."""
+        fi = self.fi
+        v = _orig(fi, v)
+        while isinstance(v, ast.Call) and call_name(v) in ('np.array', 'np.asarray', 'list', 'tuple') and v.args:
+            if any(k.arg != 'dtype' for k in v.keywords) or len(v.args) > 2:
+                return 'far'
+            v = _orig(fi, v.args[0])
+        if not isinstance(v, (ast.ListComp, ast.GeneratorExp)) or len(v.generators) != 1:
+            return 'far'
+        g = v.generators[0]
+        if g.ifs or not isinstance(g.target, ast.Name) or not self.is_raw(g.iter):
+            return 'far'
+        t = g.target.id
+        verdict = classify(fi.expand(v.elt), _MASKS, binds={'_V': ast.Name(id=t, ctx=ast.Load())}, scope={t})
+        if verdict[0] == 'match':
+            return 'masked'
+        if verdict[0] == 'near':
+            return ('near', verdict)
+        return 'far'
+
+    def rows_kind(self, it):
+        """How the iterable of the per-row loop relates to the caller's
+        trajectories: 'masked' | 'raw' | ('near', v) | 'far'."""
+        fi = self.fi
+        if self.is_raw(it):
+            return 'raw'
+        it = _orig(fi, it)
+        if not isinstance(it, ast.Name):
+            return self.masked_form(it)
+        kinds = []
+        for s, v in _alts(fi, it):
+            if v is None or isinstance(s, str):
+                kinds.append('far')
+            else:
+                kinds.append(self.masked_form(v))
+        if kinds and all(k == 'masked' for k in kinds):
+            return 'masked'
+        for k in kinds:
+            if isinstance(k, tuple):
+                return k
+        return 'far'
+
+    def joined_rows(self, e):
+        """`e` is a concatenation/flattening of (all) the trajectories."""
+        fi = self.fi
+        e = _orig(fi, e)
+        if isinstance(e, ast.Call):
+            cn = call_name(e) or ''
+            src = None
+            if cn in _JOINS and e.args:
+                src = e.args[0]
+            elif isinstance(e.func, ast.Attribute) and e.func.attr in ('ravel', 'flatten', 'reshape') and cn.split('.')[0] not in ('np', 'numpy'):
+                src = e.func.value
+            elif cn in ('np.ravel',) and e.args:
+                src = e.args[0]
+            if src is not None:
+                ps_, calls = fi.derives_from(src)
+                if self.ps[0] in ps_ and HELPER not in calls:
+                    return True
+        return False
+
+    def per_row(self, hc):
+        ck, mod, fi = self.ck, self.mod, self.fi
+        assigns, lag, nst, sw = self.ps[:4]
+        hp = self.hps
+        # forwarded lag / flag
+        lv = arg_or_kw(hc, 1, hp[1])
+        if lv is None:
+            ck.bad('C03.D3.per-row', mod, hc, COUNTS, u(hc), 'the helper must receive lag_time=%s (its default is used instead)' % lag)
+        else:
+            v = classify(fi.expand(lv), [lag, 'int(%s)' % lag], scope={lag, sw, nst})
+            if v[0] == 'match' and _rebound(fi, lag):
+                v = ('far', 0, None)
+            ck.decide(v, 'C03.D3.per-row', mod, hc, COUNTS, '%s: lag = %s' % (u(hc)[:120], u(lv)),
+                      'lag_time is forwarded to the helper', 'the helper must receive lag_time=%s' % lag)
+        fv = arg_or_kw(hc, 2, hp[2])
+        if fv is None:
+            from ..core import param_default
+            fv = param_default(mod.func(HELPER), hp[2])
+        fx = fi.expand(fv) if fv is not None else None
+        if isinstance(fx, ast.Name) and fx.id == sw and not _rebound(fi, sw):
+            ck.ok('C03.D3.per-row', mod, hc, '%s: sliding = %s' % (u(hc)[:120], u(fv)), 'sliding_window is forwarded to the helper')
+        elif isinstance(fx, ast.Constant) and isinstance(fx.value, bool) and not _rebound(fi, sw):
+            truths = [_flag_truth(a.test, a.polarity, sw) for a in _assumes(fi, fi.stmt(hc))]
+            ck.check(fx.value in [t for t in truths if t is not None], 'C03.D3.per-row', mod, hc, COUNTS,
+                     '%s: sliding = %s' % (u(hc)[:120], u(fx)),
+                     'the constant flag agrees with the branch of `%s` the call sits in' % sw,
+                     'the helper must receive sliding_window=%s (a constant that is not implied by the enclosing branch is used)' % sw)
+        else:
+            ck.missing('C03.D3.per-row', 'sliding-window flag handed to the helper not recognised: %s' % u(hc)[:160])
+        # the trajectory argument
+        a0 = arg_or_kw(hc, 0, hp[0])
+        if a0 is None:
+            ck.missing('C03.D3.per-row', 'trajectory argument of %s' % u(hc)[:160])
+            return
+        ax = _orig(fi, a0)
+        inline = False
+        row = ax if isinstance(ax, ast.Name) else None
+        if row is None:
+            m = match_any(_MASKS, fi.expand(ax))
+            if m is not None and isinstance(m['_V'], ast.Name):
+                cand = [x for x in walk_expr(ax) if isinstance(x, ast.Name) and x.id == m['_V'].id]
+                if cand:
+                    row, inline = cand[0], True
+        it = kind = None
+        if row is not None:
+            it, kind = self.binder(row, hc)
+        else:
+            # another pure function of the iteration variable alone (row[::2], row[1:], ...)
+            for x in walk_expr(ax):
+                if isinstance(x, ast.Name) and self.binder(x, hc)[0] is not None:
+                    v = classify(fi.expand(ax), _MASKS + ['_V'], binds={'_V': ast.Name(id=x.id, ctx=ast.Load())}, scope={x.id})
+                    if v[0] == 'near':
+                        ck.bad('C03.D3.per-row', mod, hc, COUNTS, u(hc)[:200],
+                               'the helper must receive the (filtered) trajectory row `%s` itself, not `%s`: every frame of the '
+                               'row takes part in the lagged pairing' % (x.id, u(ax)[:80]))
+                        return
+                    break
+        if it is None:
+            if self.joined_rows(ax):
+                ck.bad('C03.D3.per-row', mod, hc, COUNTS, u(hc)[:200],
+                       'the lagged pairs must be built per trajectory: the helper receives `%s`, a concatenation of '
+                       'several trajectories, so frame t of one trajectory is paired with frame t+%s-n of the next' % (
+                           fi.xu(a0)[:80], lag))
+            else:
+                ck.missing('C03.D3.per-row', 'the trajectory handed to the helper is not recognised as the iteration '
+                           'variable of a loop over the trajectories: %s' % u(hc)[:160])
+            return
+        rk = self.rows_kind(it)
+        derived = rk != 'far' or self.ps[0] in fi.derives_from(it)[0]
+        if not derived:
+            ck.missing('C03.D3.per-row', 'the loop around the helper call does not iterate over `%s`: %s' % (assigns, u(it)[:120]))
+            return
+        ck.ok('C03.D3.per-row', mod, hc, 'for %s in %s: %s' % (row.id, u(it)[:60], u(hc)[:100]),
+              'pairs are formed inside one trajectory row at a time')
+        # D4: -1 filter reaches the helper argument
+        construct = 'rows: %s ; helper argument: %s' % (fi.xu(it)[:120], u(ax)[:60])
+        why_bad = ('each row must be filtered with row[row != -1] before slicing, and the helper must '
+                   'iterate over the filtered rows (otherwise padding is counted as a state / pairs span padding)')
+        if inline and rk in ('raw', 'masked'):
+            ck.ok('C03.D4.mask', mod, hc, construct, 'padding -1 is removed from the row handed to the helper')
+        elif rk == 'masked':
+            ck.ok('C03.D4.mask', mod, hc, construct, 'padding -1 is removed per row before the lagged slices are taken')
+        elif rk == 'raw':
+            ck.bad('C03.D4.mask', mod, hc, COUNTS, construct, why_bad)
+        elif isinstance(rk, tuple):
+            ck.decide(rk[1], 'C03.D4.mask', mod, hc, COUNTS, construct, '', why_bad)
+        else:
+            ck.missing('C03.D4.mask', 'the per-row -1 filter is not recognised in the definition of the iterated rows: %s' % construct[:200])
+
+    def concat_uses(self, helper_calls):
+        """D3: a concatenation of all trajectories may only feed `.max()`."""
+        ck, mod, fn, fi = self.ck, self.mod, self.fn, self.fi
+        hargs = set()
+        for hc in helper_calls:
+            for a in list(hc.args) + [k.value for k in hc.keywords]:
+                hargs.add(id(a))
+
+        def use_ok(n):
+            p = mod.parent.get(n)
+            if isinstance(p, ast.Attribute) and p.attr == 'max' and isinstance(mod.parent.get(p), ast.Call):
+                return True
+            return id(n) in hargs       # reported by per_row
+        for c in calls_in(fn):
+            if not self.joined_rows(c):
+                continue
+            if use_ok(c):
+                continue
+            p = mod.parent.get(c)
+            uses = None
+            if isinstance(p, ast.Assign) and len(p.targets) == 1 and isinstance(p.targets[0], ast.Name):
+                t = p.targets[0].id
+                uses = [x for x in ast.walk(fn) if isinstance(x, ast.Name) and isinstance(x.ctx, ast.Load) and x.id == t
+                        and p in fi.defs_of_use(x)]
+            if uses is not None and all(use_ok(x) for x in uses):
+                continue
+            ck.missing('C03.D3.concat-use', 'the concatenation of all trajectories %s is used for something else than '
+                       '.max(): cannot decide whether trajectories stay separate' % u(c)[:100])
+
+    # -- coo_matrix ---------------------------------------------------------
+    def coo(self, helper_calls):
+        ck, mod, fn, fi = self.ck, self.mod, self.fn, self.fi
+        assigns, lag, nst, sw = self.ps[:4]
+        coo = [c for c in calls_in(fn) if (call_name(c) or '').split('.')[-1] == 'coo_matrix']
+        if len(coo) != 1:
+            ck.missing('C03.D2.coo', 'coo_matrix construction (found %d)' % len(coo))
+            return
+        c = coo[0]
+        for r in returns_of(fn):
+            rv = _orig(fi, r.value) if r.value is not None else None
+            if rv is c:
+                continue
+            if isinstance(rv, ast.Attribute) and rv.attr == 'T' and _orig(fi, rv.value) is c or \
+                    isinstance(rv, ast.Call) and isinstance(rv.func, ast.Attribute) and rv.func.attr == 'transpose' \
+                    and _orig(fi, rv.func.value) is c:
+                ck.bad('C03.D2.coo', mod, r, COUNTS, u(r), 'the count matrix is returned transposed (from/to states exchanged)')
+            else:
+                ck.missing('C03.D2.coo', 'returned value is not the coo_matrix itself: %s' % u(r)[:120])
+        shape = arg_or_kw(c, 1, 'shape')
+        tup = arg_or_kw(c, 0, 'arg1')
+        n_node = None
+        if shape is None:
+            ck.bad('C03.D2.coo', mod, c, COUNTS, u(c), 'the count matrix must have shape (max_n_states, max_n_states); '
+                   'without shape= it is inferred from the pairs and is neither square nor of the requested size')
+        else:
+            sh = _orig(fi, shape)
+            if isinstance(sh, ast.Tuple) and len(sh.elts) == 2:
+                e0, e1 = [_orig(fi, e) for e in sh.elts]
+                same = u(canon(e0)) == u(canon(e1))
+                if same and isinstance(e0, ast.Name) and fi.defs_of_use(e0) == fi.defs_of_use(e1):
+                    n_node = e0
+                    ck.ok('C03.D2.coo', mod, c, u(c), 'square matrix with the requested/inferred number of states')
+                elif not same:
+                    ck.bad('C03.D2.coo', mod, c, COUNTS, u(c), 'the count matrix must have shape (max_n_states, max_n_states)')
+                else:
+                    ck.missing('C03.D2.coo', 'shape of the count matrix is square but not a plain variable: %s' % u(sh)[:100])
+            else:
+                ck.missing('C03.D2.coo', 'shape of the count matrix not recognised: %s' % u(shape)[:100])
+        tup = _orig(fi, tup) if tup is not None else None
+        if not (isinstance(tup, ast.Tuple) and len(tup.elts) == 2):
+            ck.missing('C03.D2.coo', 'coo_matrix must receive (data, coords): %s' % u(c)[:120])
+            return
+        data, coords = tup.elts
+        ct = _orig(fi, coords)
+        if isinstance(ct, ast.Tuple) and len(ct.elts) == 2:
+            # (data, (row, col)) spelled out
+            idx = []
+            for e in ct.elts:
+                e = _orig(fi, e)
+                if isinstance(e, ast.Subscript) and isinstance(const_value(e.slice), int):
+                    idx.append((e.value, const_value(e.slice)))
+            if len(idx) == 2 and u(canon(idx[0][0])) == u(canon(idx[1][0])) and (idx[0][1], idx[1][1]) == (0, 1):
+                coords = idx[0][0]
+            elif len(idx) == 2 and u(canon(idx[0][0])) == u(canon(idx[1][0])) and (idx[0][1], idx[1][1]) == (1, 0):
+                ck.bad('C03.D2.orientation', mod, c, COUNTS, u(c)[:200], 'row indices must be the from-states (row 0 of the pair list) '
+                       'and column indices the to-states (row 1): exchanged here')
+                return
+            else:
+                ck.missing('C03.D2.coo', 'coordinates of the coo_matrix not recognised: %s' % u(ct)[:120])
+                return
+        self.unsliced(c, coords, helper_calls)
+        self.unit_weights(c, data, coords)
+        self.n_states(c, n_node, coords)
+
+    def _hstack_arg(self, v):
+        """T if v is the horizontal concatenation of the sequence T;
+        'bad' for a concatenation along another axis; None otherwise."""
+        if not isinstance(v, ast.Call):
+            return None
+        cn = call_name(v)
+        if cn == 'np.hstack' and len(v.args) == 1 and not v.keywords:
+            return v.args[0]
+        if cn == 'np.concatenate' and v.args and len(v.args) <= 2 and all(k.arg == 'axis' for k in v.keywords):
+            ax = arg_or_kw(v, 1, 'axis')
+            if ax is not None and const_value(ax) in (1, -1):
+                return v.args[0]
+            if ax is None or isinstance(const_value(ax), int):
+                return 'bad'
+        return None
+
+    def unsliced(self, c, coords, helper_calls):
+        ck, mod, fn, fi = self.ck, self.mod, self.fn, self.fi
+        rule = 'C03.D3.unsliced'
+        lag = self.ps[1]
+        why = ('the coordinate array given to coo_matrix must be np.hstack(<per-row helper results>) '
+               'itself: thinning/slicing the concatenated pair list (e.g. [:, ::lag]) carries the '
+               'stride phase across trajectory boundaries')
+        accounted = set()
+        bad = far = 0
+        lists = []
+
+        def is_helper(e):
+            """The helper call whose result `e` denotes (followed through
+            single-definition names; the call itself need not be pure)."""
+            e = _orig(fi, e)
+            for _ in range(4):
+                if not isinstance(e, ast.Name):
+                    break
+                try:
+                    defs = fi.defs_of_use(e)
+                except Exception:
+                    break
+                site = next(iter(defs)) if len(defs) == 1 else None
+                if not isinstance(site, (ast.Assign, ast.AnnAssign)) or fi._mutated_in_place(e.id):
+                    break
+                v = fi.def_value(site, e.id)
+                if v is None:
+                    break
+                e = _orig(fi, v)
+            return e if isinstance(e, ast.Call) and call_name(e) == HELPER else None
+
+        def from_pairs(e):
+            """e is derived from helper results / the concatenated pair list."""
+            return HELPER in fi.derives_from(e)[1]
+
+        def element(e, where):
+            nonlocal bad, far
+            h = is_helper(e)
+            if h is not None:
+                accounted.add(id(h))
+                return
+            eo = _orig(fi, e)
+            if isinstance(eo, ast.Subscript) and from_pairs(eo.value):
+                bad += 1
+                ck.bad(rule, mod, where, COUNTS, u(eo)[:200],
+                       'the pair list produced by the helper is sliced/masked (%s) before it is counted: ' % u(eo)[:80] + why)
+            else:
+                far += 1
+                ck.missing(rule, 'element of the per-row pair list is not a helper result: %s' % u(eo)[:120])
+        for s, v in _alts(fi, coords):
+            if v is None or isinstance(s, str):
+                far += 1
+                ck.missing(rule, 'definition of the coordinate array not recognised (%s)' % (s if isinstance(s, str) else mod.loc(s)))
+                continue
+            t = self._hstack_arg(v)
+            if t == 'bad':
+                bad += 1
+                ck.bad(rule, mod, s, COUNTS, u(v)[:200], 'the per-row (2, n_i) pair lists must be joined horizontally (np.hstack / axis=1)')
+            elif t is not None:
+                lists.append(t)
+            elif isinstance(v, ast.Subscript) and (from_pairs(v.value) or (isinstance(coords, ast.Name) and isinstance(v.value, ast.Name)
+                                                                       and v.value.id == coords.id)):
+                bad += 1
+                ck.bad(rule, mod, s, COUNTS, '%s = %s' % (u(coords), u(v)[:100]), why)
+            else:
+                far += 1
+                ck.missing(rule, 'coordinate array is not the horizontal concatenation of the per-row pair lists: %s' % u(v)[:120])
+        for t in lists:
+            t = _orig(fi, t)
+            while isinstance(t, ast.Call) and call_name(t) in ('list', 'tuple') and len(t.args) == 1 and not t.keywords:
+                t = _orig(fi, t.args[0])
+            alts = _alts(fi, t) if isinstance(t, ast.Name) else [(fi.stmt(t), t)]
+            grown = set()
+            if isinstance(t, ast.Name):
+                # a list grown in a loop: T.append(x) / T.extend([x]) / T += [x]
+                for ms in fi._mutated_in_place(t.id):
+                    call = ms.value if isinstance(ms, ast.Expr) else None
+                    meth = call.func.attr if isinstance(call, ast.Call) and isinstance(call.func, ast.Attribute) and \
+                        isinstance(call.func.value, ast.Name) and call.func.value.id == t.id and len(call.args) == 1 \
+                        and not call.keywords else None
+                    if meth == 'append':
+                        element(call.args[0], ms)
+                    elif meth == 'extend' and isinstance(call.args[0], (ast.List, ast.Tuple)):
+                        for e in call.args[0].elts:
+                            element(e, ms)
+                    elif isinstance(ms, ast.AugAssign) and isinstance(ms.op, ast.Add) and isinstance(ms.target, ast.Name) \
+                            and isinstance(ms.value, (ast.List, ast.Tuple)):
+                        grown.add(id(ms))
+                        for e in ms.value.elts:
+                            element(e, ms)
+                    else:
+                        far += 1
+                        ck.missing(rule, 'the per-row pair list `%s` is modified by %s' % (t.id, u(ms)[:100]))
+            for s, v in alts:
+                if id(s) in grown:
+                    continue
+                if v is None or isinstance(s, str):
+                    far += 1
+                    ck.missing(rule, 'definition of the per-row pair list not recognised')
+                elif isinstance(v, (ast.ListComp, ast.GeneratorExp)) and len(v.generators) == 1:
+                    element(v.elt, s)
+                elif isinstance(v, (ast.List, ast.Tuple)):
+                    for e in v.elts:
+                        element(e, s)
+                elif isinstance(v, ast.Call) and call_name(v) == 'list' and not v.args:
+                    pass
+                else:
+                    far += 1
+                    ck.missing(rule, 'per-row pair list not recognised: %s' % u(v)[:120])
+        stray = [h for h in helper_calls if id(h) not in accounted]
+        if stray and not bad and not far:
+            far += 1
+            ck.missing(rule, 'the result of %s does not flow recognisably into the coordinates' % u(stray[0])[:120])
+        if not bad and not far and lists:
+            ck.ok(rule, mod, c, '%s = %s' % (u(coords), fi.xu(coords)[:100]),
+                  'coordinates are the plain horizontal concatenation of the per-row pair lists')
+
+    def unit_weights(self, c, data, coords):
+        ck, mod, fn, fi = self.ck, self.mod, self.fn, self.fi
+        rule = 'C03.D4.unit-weights'
+        assigns, lag, nst, sw = self.ps[:4]
+        ctexts = {fi.xu(coords), u(canon(coords))}
+        counts = set()
+        rows = set()
+        for t in ctexts:
+            counts |= {'%s.shape[1]' % t, '%s.shape[-1]' % t, 'len(%s[0])' % t, 'len(%s[1])' % t, '%s[0].size' % t,
+                       '%s[1].size' % t, '%s[0].shape[0]' % t, 'len(%s.T)' % t, '%s.T.shape[0]' % t}
+            rows |= {'%s[0]' % t, '%s[1]' % t, '%s[0, :]' % t, '%s[1, :]' % t}
+        scope = {lag, sw, nst, assigns} | {x.id for x in walk_expr(coords) if isinstance(x, ast.Name)} | \
+            {x.id for x in walk_expr(fi.expand(coords)) if isinstance(x, ast.Name)}
+        why = ('every pair must carry weight one: data must be np.ones(%s.shape[1]) of a wide, fixed dtype '
+               '(duplicates are summed by COO in the dtype of the data)' % u(coords))
+
+        def same_coords(expr, site):
+            """Unexpanded names shared with `coords` denote the same value at
+            the definition of the data and at the coo_matrix call."""
+            cs = fi.stmt(c)
+            for x in walk_expr(expr):
+                if isinstance(x, ast.Name) and isinstance(x.ctx, ast.Load) and fi.temp_value(x) is None and x.id in scope:
+                    if fi.rd.defs_at(fi.stmt(x), x.id) != fi.rd.defs_at(cs, x.id):
+                        return False
+            return True
+
+        def dtype_verdict(d):
+            if d is None:
+                return 'ok'
+            t = fi.xu(d)
+            if t in _WIDE:
+                return 'ok'
+            if t in _NARROW:
+                return 'bad'
+            names = {x.id for x in walk_expr(fi.expand(d)) if isinstance(x, ast.Name)}
+            if names & (scope - {lag, sw, nst}) and is_pure(d):
+                return 'bad'        # dtype inherited from the assignments / coordinates
+            return 'far'
+        for s, v in _alts(fi, data):
+            construct = '%s = %s' % (u(data), u(v)[:120] if v is not None else '?')
+            if v is None or isinstance(s, str):
+                ck.missing(rule, 'definition of the COO data not recognised')
+                continue
+            cn = call_name(v) if isinstance(v, ast.Call) else None
+            verdict = None
+            if cn in ('np.ones', 'np.full') and v.args:
+                k = arg_or_kw(v, 0, 'shape')
+                pos = 1
+                fill_ok = True
+                if cn == 'np.full':
+                    fill = arg_or_kw(v, 1, 'fill_value')
+                    fill_ok = fill is not None and const_value(fi.expand(fill)) == 1 and not isinstance(const_value(fi.expand(fill)), bool)
+                    pos = 2
+                d = arg_or_kw(v, pos, 'dtype')
+                kx = canon(fi.expand(k))
+                if isinstance(kx, ast.Tuple) and len(kx.elts) == 1:
+                    kx = kx.elts[0]
+                extra = [kw for kw in v.keywords if kw.arg not in ('shape', 'dtype', 'fill_value')]
+                if extra:
+                    verdict = 'far'
+                elif u(kx) in counts and fill_ok and same_coords(k, s):
+                    verdict = dtype_verdict(d)
+                else:
+                    verdict = classify(kx, sorted(counts), scope=scope)[0]
+                    verdict = 'bad' if verdict == 'near' or not fill_ok else 'far'
+            elif cn == 'np.ones_like' and v.args:
+                x = canon(fi.expand(v.args[0]))
+                d = arg_or_kw(v, 1, 'dtype')
+                if u(x) in rows and same_coords(v.args[0], s):
+                    verdict = 'bad' if d is None else dtype_verdict(d)
+                    if d is None:
+                        ck.bad(rule, mod, s, COUNTS, construct,
+                               'np.ones_like(<coordinate row>) inherits the dtype of the assignments: COO duplicate summation '
+                               'then wraps around for narrow integer types; ' + why)
+                        continue
+                else:
+                    verdict = 'bad' if classify(x, sorted(rows), scope=scope)[0] == 'near' else 'far'
+            else:
+                verdict = 'bad' if classify(fi.expand(v), ['np.ones(_K)'], scope=scope)[0] == 'near' else 'far'
+            if verdict == 'ok':
+                ck.ok(rule, mod, s, construct, 'one unit of weight per coordinate column (duplicates summed by COO)')
+            elif verdict == 'bad':
+                ck.bad(rule, mod, s, COUNTS, construct, why)
+            else:
+                ck.missing(rule, 'COO data not recognised as unit weights: %s' % construct[:160])
+
+    def n_states(self, c, n_node, coords):
+        ck, mod, fn, fi = self.ck, self.mod, self.fn, self.fi
+        rule = 'C03.D5.n-states'
+        assigns, lag, nst, sw = self.ps[:4]
+        why = ('when max_n_states is None it must be np.concatenate(<masked rows>).max() + 1: inferring '
+               'it from the pair list loses states that only occur in frames without a partner '
+               '(trajectories not longer than the lag, frames skipped by the strided window)')
+        if n_node is None:
+            return
+        inferred = 0
+        for s in fi.defs_of_use(n_node):
+            if s == 'PARAM' and n_node.id == nst:
+                continue
+            v = fi.def_value(s, n_node.id) if isinstance(s, (ast.Assign, ast.AnnAssign)) else None
+            if v is None:
+                ck.missing(rule, 'definition of the number of states not recognised (%s)' % (s if isinstance(s, str) else mod.loc(s)))
+                continue
+            vo = _orig(fi, v)
+            if isinstance(vo, ast.Name) and vo.id == nst and fi.defs_of_use(vo) == {'PARAM'}:
+                continue
+            inferred += 1
+            construct = u(s)
+            # executed exactly when no number of states was requested
+            guards = []
+            for a in _assumes(fi, s):
+                for cj in conjuncts(a.test, a.polarity) or []:
+                    if isinstance(cj, Cmp) and isinstance(cj.lhs, ast.Name) and cj.lhs.id == nst and \
+                            isinstance(cj.rhs, ast.Constant) and cj.rhs.value is None:
+                        guards.append(cj.rel)
+            mentions = [a for a in _assumes(fi, s) if any(isinstance(x, ast.Name) and x.id == nst for x in walk_expr(a.test))]
+            if not any(g in ('is', '==') for g in guards):
+                if guards or not mentions:
+                    ck.bad(rule, mod, s, COUNTS, construct, 'the number of states may only be inferred when `%s is None`: '
+                           'a requested number of states must be used as given' % nst)
+                else:
+                    ck.missing(rule, 'condition under which the number of states is inferred not recognised: %s' % u(mentions[0].test)[:100])
+                continue
+            _, calls = fi.derives_from(v)
+            if HELPER in calls:
+                ck.bad(rule, mod, s, COUNTS, construct, why)
+                continue
+            vx = canon(fi.expand(v))
+            m = match_any(['_X.max() + 1', '1 + _X.max()', 'int(_X.max()) + 1', 'int(_X.max() + 1)'], vx)
+            if m is None:
+                verdict = classify(vx, ['np.concatenate(%s).max() + 1' % assigns], scope={assigns})
+                ck.decide(verdict, rule, mod, s, COUNTS, construct, '', why)
+                continue
+            x = m['_X']
+            ok = False
+            if isinstance(x, ast.Call) and call_name(x) in _JOINS and len(x.args) == 1 and \
+                    (not x.keywords or (len(x.keywords) == 1 and x.keywords[0].arg == 'axis' and const_value(x.keywords[0].value) in (0, None)
+                                        and call_name(x) == 'np.concatenate')):
+                r = x.args[0]
+                while isinstance(r, ast.Call) and call_name(r) in ('list', 'tuple', 'np.array', 'np.asarray') and len(r.args) == 1 \
+                        and all(k.arg == 'dtype' for k in r.keywords):
+                    r = r.args[0]
+                if isinstance(r, ast.Name) and r.id == assigns:
+                    ok = True
+                elif isinstance(r, (ast.ListComp, ast.GeneratorExp)) and len(r.generators) == 1 and not r.generators[0].ifs \
+                        and isinstance(r.generators[0].iter, ast.Name) and r.generators[0].iter.id == assigns \
+                        and isinstance(r.generators[0].target, ast.Name) and classify(
+                            r.elt, _MASKS + ['_V'], binds={'_V': ast.Name(id=r.generators[0].target.id, ctx=ast.Load())})[0] == 'match':
+                    ok = True
+            if ok:
+                ck.ok(rule, mod, s, construct, 'inferred number of states = largest assigned state + 1 over ALL assigned frames')
+            else:
+                verdict = classify(vx, ['np.concatenate(%s).max() + 1' % assigns], scope={assigns})
+                ck.decide(verdict, rule, mod, s, COUNTS, construct, '', why)
+        if not inferred:
+            ck.bad(rule, mod, c, COUNTS, nst, 'no inference of the number of states when `%s` is None; ' % nst + why)
 
 
 def d_counts(ck):
-    mod = ck.repo.mod(TM)
-    fn = mod.func('assigns_to_counts')
-    ck.analysed(mod, fn)
-    fi = finfo(mod, fn)
-    ps = params(fn)
-    assigns, lag = ps[0], ps[1]
-    # lag guard
-    guards = []
-    for n in fn.body:
-        if isinstance(n, ast.If) and any(isinstance(x, ast.Raise) for x in n.body):
-            cs = conjuncts(n.test, True)
-            if cs and len(cs) == 1 and isinstance(cs[0], Cmp):
-                less = cs[0].as_less()
-                if less and u(less[0]) == lag and ((less[1] and const_value(less[2]) == 1) or
-                                                   (not less[1] and const_value(less[2]) == 0)):
-                    guards.append(n)
-    helper_calls = [c for c in calls_in(fn) if call_name(c) == '_transitions_helper']
-    ck.check(bool(guards), 'C03.D1.lag-guard', mod, guards[0] if guards else fn, 'assigns_to_counts',
-             u(guards[0].test) if guards else 'lag_time < 1',
-             'lag_time < 1 raises (a[:-0] would be empty)',
-             'lag_time < 1 must raise before counting: with L = 0 the slice a[:-0] is empty and '
-             'negative lags pair the wrong frames')
-    if guards and helper_calls:
-        ok = all(fi.cfg.dominates(guards[0], fi.stmt(c)) for c in helper_calls)
-        ck.check(ok, 'C03.D1.lag-guard', mod, guards[0], 'assigns_to_counts', 'guard dominates helper calls',
-                 'guard dominates every helper call', 'the lag guard does not dominate the helper call')
-    if len(helper_calls) != 1:
-        ck.missing('C03.D3.per-row', '_transitions_helper call in assigns_to_counts (found %d)' % len(helper_calls))
+    k = _Counts(ck)
+    if len(k.ps) < 4 or len(k.hps) < 3:
+        ck.missing('C03.D3.per-row', 'signature of %s / %s not recognised' % (COUNTS, HELPER))
         return
-    hc = helper_calls[0]
-    # D3: helper call inside a comprehension/loop over the masked per-row array
-    comp = mod.parent.get(hc)
-    while comp is not None and not isinstance(comp, (ast.ListComp, ast.GeneratorExp, ast.For)):
-        comp = mod.parent.get(comp)
-    row_var = it = None
-    if isinstance(comp, (ast.ListComp, ast.GeneratorExp)) and len(comp.generators) == 1:
-        row_var, it = u(comp.generators[0].target), comp.generators[0].iter
-    elif isinstance(comp, ast.For):
-        row_var, it = u(comp.target), comp.iter
-    ok = row_var is not None and hc.args and u(hc.args[0]) == row_var and isinstance(it, ast.Name) and it.id == assigns
-    ck.check(ok, 'C03.D3.per-row', mod, hc, 'assigns_to_counts', u(comp)[:160] if comp is not None else u(hc),
-             'pairs are formed inside one trajectory row at a time',
-             'the lagged pairs must be built per trajectory: the helper must receive the loop '
-             'variable iterating over the (masked) rows of `%s`' % assigns)
-    kw_ok = u(kwarg(hc, 'lag_time')) == lag and u(kwarg(hc, 'sliding_window')) == ps[3]
-    if not kw_ok and len(hc.args) >= 3:
-        kw_ok = u(hc.args[1]) == lag and u(hc.args[2]) == ps[3]
-    ck.check(kw_ok, 'C03.D3.per-row', mod, hc, 'assigns_to_counts', u(hc),
-             'lag_time and sliding_window are forwarded to the helper',
-             'the helper must receive lag_time=%s and sliding_window=%s' % (lag, ps[3]))
-    # D4: masking per row: assigns = np.array([a[np.where(a != -1)] for a in assigns], dtype='O')
-    mdefs = [s for s in assigns_to(fn, assigns) if isinstance(s, ast.Assign)]
-    okm = False
-    for s in mdefs:
-        for lc in ast.walk(s.value):
-            if isinstance(lc, ast.ListComp) and len(lc.generators) == 1:
-                tv = u(lc.generators[0].target)
-                e = lc.elt
-                if isinstance(e, ast.Subscript) and u(e.value) == tv and ('%s != -1' % tv) in u(e.slice) \
-                        and u(lc.generators[0].iter) == assigns:
-                    okm = True
-    masked_before = okm and it is not None and all(
-        isinstance(d, ast.Assign) and d in mdefs for d in fi.defs_of_use(it) if d != 'PARAM') and \
-        'PARAM' not in fi.defs_of_use(it)
-    ck.check(masked_before, 'C03.D4.mask', mod, mdefs[0] if mdefs else fn, 'assigns_to_counts',
-             u(mdefs[0])[:160] if mdefs else 'mask',
-             'padding -1 is removed per row before the lagged slices are taken',
-             'each row must be filtered with row[row != -1] before slicing, and the helper must '
-             'iterate over the filtered rows (otherwise padding is counted as a state / pairs span padding)')
-    # D2/D3: hstack result flows unsliced into coo_matrix and np.ones
-    coo = [c for c in calls_in(fn) if (call_name(c) or '').endswith('coo_matrix')]
-    if len(coo) != 1:
-        ck.missing('C03.D2.coo', 'coo_matrix construction')
+    helper_calls = [c for c in calls_in(k.fn) if call_name(c) == HELPER]
+    ck.floor('C03.D3.per-row', len(helper_calls), 1, '%s call in %s' % (HELPER, COUNTS))
+    if not helper_calls:
         return
-    c = coo[0]
-    tup = c.args[0] if c.args else None
-    shape = kwarg(c, 'shape') or (c.args[1] if len(c.args) > 1 else None)
-    ok_shape = isinstance(shape, ast.Tuple) and len(shape.elts) == 2 and u(shape.elts[0]) == u(shape.elts[1]) == ps[2]
-    ck.check(ok_shape, 'C03.D2.coo', mod, c, 'assigns_to_counts', u(c),
-             'square matrix with the requested/inferred number of states',
-             'the count matrix must have shape (max_n_states, max_n_states)')
-    ok_t = isinstance(tup, ast.Tuple) and len(tup.elts) == 2 and all(isinstance(e, ast.Name) for e in tup.elts)
-    if not ok_t:
-        ck.bad('C03.D2.coo', mod, c, 'assigns_to_counts', u(c), 'coo_matrix must receive (data, coords) names')
-        return
-    data, coords = tup.elts
-    cv = fi.resolve(coords)
-    ok = isinstance(cv, ast.Call) and call_name(cv) in ('np.hstack', 'np.concatenate') and cv.args
-    if ok and call_name(cv) == 'np.concatenate':
-        ok = const_value(kwarg(cv, 'axis')) == 1
-    src_ok = False
-    if ok:
-        tv = fi.resolve(cv.args[0]) if isinstance(cv.args[0], ast.Name) else cv.args[0]
-        src_ok = any(x is hc for x in ast.walk(tv))
-    ck.check(ok and src_ok, 'C03.D3.unsliced', mod, c, 'assigns_to_counts',
-             '%s = %s' % (u(coords), u(cv)[:100]),
-             'coordinates are the plain horizontal concatenation of the per-row pair lists',
-             'the coordinate array given to coo_matrix must be np.hstack(<per-row helper results>) '
-             'itself: thinning/slicing the concatenated pair list (e.g. [:, ::lag]) carries the '
-             'stride phase across trajectory boundaries')
-    dv = fi.resolve(data)
-    ok = isinstance(dv, ast.Call) and call_name(dv) == 'np.ones' and dv.args and \
-        u(dv.args[0]) == '%s.shape[1]' % u(coords)
-    ck.check(ok, 'C03.D4.unit-weights', mod, c, 'assigns_to_counts', '%s = %s' % (u(data), u(dv)),
-             'one unit of weight per coordinate column (duplicates summed by COO)',
-             'every pair must carry weight one: data must be np.ones(%s.shape[1])' % u(coords))
-    # D5: inferred number of states
-    nd = [s for s in assigns_to(fn, ps[2]) if isinstance(s, ast.Assign)]
-    okn = False
-    if len(nd) == 1:
-        v = nd[0].value
-        okn = isinstance(v, ast.BinOp) and isinstance(v.op, ast.Add) and const_value(v.right) == 1 and \
-            isinstance(v.left, ast.Call) and isinstance(v.left.func, ast.Attribute) and v.left.func.attr == 'max' and \
-            isinstance(v.left.func.value, ast.Call) and call_name(v.left.func.value) == 'np.concatenate' and \
-            u(v.left.func.value.args[0]) == assigns
-        g = mod.parent.get(nd[0])
-        okn = okn and isinstance(g, ast.If) and u(g.test) == '%s is None' % ps[2]
-    ck.check(okn, 'C03.D5.n-states', mod, nd[0] if nd else fn, 'assigns_to_counts', u(nd[0]) if nd else ps[2],
-             'inferred number of states = largest assigned state + 1 over ALL assigned frames',
-             'when max_n_states is None it must be np.concatenate(<masked rows>).max() + 1: inferring '
-             'it from the pair list loses states that only occur in frames without a partner '
-             '(trajectories not longer than the lag, frames skipped by the strided window)')
+    k.lag_guard(helper_calls)
+    for hc in helper_calls:
+        k.per_row(hc)
+    k.concat_uses(helper_calls)
+    k.coo(helper_calls)
 
 
 def check(ck):
-    d1_slices(ck)
+    n = d1_slices(ck)
+    ck.floor('C03.D1.slices', n or 0, 2, '(sliding / strided, return) pairs examined in %s' % HELPER)
     d_counts(ck)
     check_no_arg_mutation(ck, 'C03.D6.inputs-unmodified', [
-        (TM, 'assigns_to_counts'), (TM, '_transitions_helper')])
+        (TM, COUNTS), (TM, HELPER)])
     return EXPLANATION
